@@ -76,6 +76,13 @@ def _clone(e, argmap, idoff, bound):
                 v["id"] = v["id"] + idoff
     if out.get("k") == "Return":
         out["k"] = "InlRet"
+    # `*p` with p bound to `&x` is x (an out-parameter of the helper is the caller's variable)
+    if out.get("k") == "Un" and out.get("op") == "*":
+        inner = out.get("e")
+        while isinstance(inner, dict) and inner.get("k") in ("ICast", "Cast"):
+            inner = inner.get("e")
+        if isinstance(inner, dict) and inner.get("k") == "Un" and inner.get("op") == "&" and isinstance(inner.get("e"), dict):
+            return inner["e"]
     return out
 
 
@@ -101,6 +108,137 @@ def _scale_succ(s, fn):
     if s < 0:
         return -fn(-s - 1) - 1
     return fn(s)
+
+
+def _const_of(e):
+    while isinstance(e, dict) and e.get("k") in ("ICast", "Cast"):
+        e = e.get("e")
+    if isinstance(e, dict) and "v" in e and e.get("k") in ("Int",):
+        return e["v"]
+    if isinstance(e, dict) and e.get("k") == "Un" and e.get("op") == "-" and _const_of(e.get("e")) is not None:
+        return -_const_of(e["e"])
+    return None
+
+
+def _is_call_copy(x, call):
+    return isinstance(x, dict) and x.get("k") == "Call" and x.get("fn") == call.get("fn") and x.get("l") == call.get("l")
+
+
+def _cond_polarity(c, call):
+    """+1 if c is true exactly when the call's result is non-zero, -1 if exactly when it is zero, None otherwise"""
+    pol = 1
+    for _ in range(8):
+        while isinstance(c, dict) and c.get("k") in ("ICast", "Cast"):
+            c = c.get("e")
+        if not isinstance(c, dict):
+            return None
+        if _is_call_copy(c, call) or (c.get("k") == "Ref" and c.get("n") == "__ret_" + (call.get("fn") or "")):
+            return pol
+        if c.get("k") == "Un" and c.get("op") == "!":
+            pol, c = -pol, c.get("e")
+            continue
+        if c.get("k") == "Bin" and c.get("op") in ("!=", "==") and _const_of(c.get("R")) == 0:
+            pol, c = (pol if c["op"] == "!=" else -pol), c.get("L")
+            continue
+        return None
+    return None
+
+
+def _var_polarity(c, vid):
+    pol = 1
+    for _ in range(8):
+        while isinstance(c, dict) and c.get("k") in ("ICast", "Cast"):
+            c = c.get("e")
+        if not isinstance(c, dict):
+            return None
+        if c.get("k") == "Ref" and c.get("id") == vid and vid is not None:
+            return pol
+        if c.get("k") == "Un" and c.get("op") == "!":
+            pol, c = -pol, c.get("e")
+            continue
+        if c.get("k") == "Bin" and c.get("op") in ("!=", "==") and _const_of(c.get("R")) == 0:
+            pol, c = (pol if c["op"] == "!=" else -pol), c.get("L")
+            continue
+        return None
+    return None
+
+
+def _thread_returns(blocks, post, call, callee_ids):
+    succ = post.get("succ") or []
+    term = post.get("term") or {}
+    live = [s for s in succ if s is not None and s >= 0]
+    if len(succ) == 1 and len(live) == 1:
+        # `v = helper (..);` and then a block that does nothing but branch on v
+        els = post.get("el") or []
+        if len(els) == 2 and _is_call_copy(els[0], call) and isinstance(els[1], dict) and els[1].get("k") == "Asg" and els[1].get("op") == "=":
+            tgt = els[1].get("L")
+            while isinstance(tgt, dict) and tgt.get("k") in ("ICast", "Cast"):
+                tgt = tgt.get("e")
+            rhs = els[1].get("R")
+            while isinstance(rhs, dict) and rhs.get("k") in ("ICast", "Cast"):
+                rhs = rhs.get("e")
+            nxt = blocks.get(live[0])
+            if isinstance(tgt, dict) and tgt.get("k") == "Ref" and tgt.get("id") is not None and _is_call_copy(rhs, call) and nxt is not None:
+                ns = nxt.get("succ") or []
+                nels = nxt.get("el") or []
+                if len(ns) == 2 and all(s is not None and s >= 0 for s in ns) and nels and all(_var_polarity(x, tgt["id"]) is not None for x in nels):
+                    pol = _var_polarity(nels[-1], tgt["id"])
+                    for cid in callee_ids:
+                        b = blocks.get(cid)
+                        if b is None or post["id"] not in (b.get("succ") or []):
+                            continue
+                        rets = [x for x in b.get("el", []) if isinstance(x, dict) and x.get("k") == "InlRet" and isinstance(x.get("e"), dict)]
+                        v = _const_of(rets[-1]["e"]) if rets else None
+                        if v is None:
+                            continue
+                        cond_true = (v != 0) if pol > 0 else (v == 0)
+                        b["succ"] = [(ns[0] if cond_true else ns[1]) if s == post["id"] else s for s in b["succ"]]
+        return
+    if len(succ) != 2 or succ[0] is None or succ[1] is None or succ[0] < 0 or succ[1] < 0:
+        return
+    if term.get("k") not in ("IfStmt", "WhileStmt", "ForStmt", "DoStmt", "ConditionalOperator"):
+        return
+    els = post.get("el") or []
+    # the block holds the call and then only expressions over the call's result
+    if not els or not _is_call_copy(els[0], call):
+        return
+    # optionally `v = helper (..)` first, and then a test of v
+    vid = None
+    if len(els) > 2 and isinstance(els[1], dict) and els[1].get("k") == "Asg" and els[1].get("op") == "=":
+        tgt, rhs = els[1].get("L"), els[1].get("R")
+        while isinstance(tgt, dict) and tgt.get("k") in ("ICast", "Cast"):
+            tgt = tgt.get("e")
+        while isinstance(rhs, dict) and rhs.get("k") in ("ICast", "Cast"):
+            rhs = rhs.get("e")
+        if isinstance(tgt, dict) and tgt.get("k") == "Ref" and tgt.get("id") is not None and _is_call_copy(rhs, call):
+            vid = tgt["id"]
+
+    def _pol(x):
+        p1 = _cond_polarity(x, call)
+        if p1 is None and vid is not None:
+            p1 = _var_polarity(x, vid)
+        return p1
+    pol = _pol(els[-1]) if len(els) > 1 else None
+    if pol is None:
+        return
+    for j, x in enumerate(els[1:-1]):
+        if vid is not None and j == 0:
+            continue
+        if _pol(x) is None:
+            return
+    for cid in callee_ids:
+        b = blocks.get(cid)
+        if b is None or post["id"] not in (b.get("succ") or []):
+            continue
+        rets = [x for x in b.get("el", []) if isinstance(x, dict) and x.get("k") == "InlRet" and isinstance(x.get("e"), dict)]
+        if not rets:
+            continue
+        v = _const_of(rets[-1]["e"])
+        if v is None:
+            continue
+        cond_true = (v != 0) if pol > 0 else (v == 0)
+        target = succ[0] if cond_true else succ[1]
+        b["succ"] = [target if s == post["id"] else s for s in b["succ"]]
 
 
 def inline_raw(raw, statics, depth=2, stack=(), max_blocks=None):
@@ -148,6 +286,10 @@ def inline_raw(raw, statics, depth=2, stack=(), max_blocks=None):
                     argmap[pi] = args[pi]
             idoff = next_local
             next_local += _max_local(callee) + 1
+            ret_id = next_local          # the helper's result, for the expressions behind the call that use it
+            next_local += 1
+            ret_ref = {"k": "Ref", "n": "__ret_" + callee["fn"], "d": "local", "id": ret_id, "t": callee.get("rt") or "int", "l": e.get("l")}
+            has_value = (callee.get("rt") or "void").strip() != "void"
             base = bid - j * 1000
             post_id = base - 900
             cids = sorted((b["id"] for b in callee["blocks"]), reverse=True)
@@ -170,6 +312,14 @@ def inline_raw(raw, statics, depth=2, stack=(), max_blocks=None):
                 if b["id"] == c_exit:
                     continue
                 nb = {"id": cmap[b["id"]], "el": [_clone(x, argmap, idoff, bound) for x in b.get("el", [])], "succ": [_scale_succ(s, m) for s in b.get("succ", [])]}
+                if has_value:
+                    # `return v`  ->  `__ret = v` (the InlRet element stays behind it)
+                    linked = []
+                    for x in nb["el"]:
+                        if isinstance(x, dict) and x.get("k") == "InlRet" and isinstance(x.get("e"), dict):
+                            linked.append({"k": "Asg", "op": "=", "t": ret_ref["t"], "l": x.get("l"), "inl": callee["fn"], "L": dict(ret_ref), "R": copy.deepcopy(x["e"])})
+                        linked.append(x)
+                    nb["el"] = linked
                 for x in nb["el"]:
                     if isinstance(x, dict):
                         x.setdefault("inl", callee["fn"])
@@ -180,7 +330,32 @@ def inline_raw(raw, statics, depth=2, stack=(), max_blocks=None):
                 if b.get("nr"):
                     nb["nr"] = b["nr"]
                 blocks[nb["id"]] = nb
+            if has_value:
+                # the expressions of the block behind the call that contain the call read the helper's result instead
+                # (copies: the plain view of the function shares these elements)
+                def _subst_call(x):
+                    if isinstance(x, dict):
+                        if _is_call_copy(x, e) and "x" in x:
+                            # still a call node for every rule that asks what is called here; analyses that follow
+                            # values read the helper's result from the local named in "ret"
+                            r = dict(x)
+                            r["ret"] = dict(ret_ref)
+                            return r
+                        return {k2: _subst_call(v2) if isinstance(v2, (dict, list)) else v2 for k2, v2 in x.items()}
+                    if isinstance(x, list):
+                        return [_subst_call(y) for y in x]
+                    return x
+                post["el"] = [post["el"][0]] + [(_subst_call(x) if any(_is_call_copy(y, e) and "x" in y for y in _walk(x)) else x) for x in post["el"][1:]]
+                if isinstance(post.get("term"), dict) and any(_is_call_copy(y, e) for y in _walk(post["term"])):
+                    post["term"] = _subst_call(post["term"])
             blocks[post_id] = post
+            # jump threading for helpers that answer with a constant: when the block behind the call does nothing but
+            # branch on the call's result (`if (!helper (x)) return;`), a `return K` of the helper continues on the side
+            # of that branch which K selects instead of running into both
+            try:
+                _thread_returns(blocks, post, e, [cmap[b["id"]] for b in callee["blocks"] if b["id"] != c_exit])
+            except Exception:
+                pass
             cur = post
             k = 1            # the call element itself stays at the head of the post block
     if not changed:
